@@ -4,7 +4,7 @@ from __future__ import annotations
 import random
 from fractions import Fraction as F
 
-from .. import core, history, oracle, rulegen, rules, ruleprops
+from .. import core, history, oracle, relabel, rulegen, rules, ruleprops
 from ..core import Case
 from ..ruleprops import violation
 
@@ -149,6 +149,7 @@ def run(ctx):
     history.run_profile_history(ctx, ctx.scale(500, 5000), predicate, history_cfg)
     shared_init_stream(ctx, ctx.scale(400, 4000))
     items += ruleprops.run_items(ctx, tie_profile_pairs(ctx, ctx.scale(1500, 10000)), predicate, nontrivial)
+    relabel.run(ctx, ctx.scale(250, 2500), rules_=("phragmen",))  # projects numbered 1 … 13 against '01' … '13' (round 7, drawn last)
     ctx.extra["with_initial_loads"] = sum(1 for it in items if it.cfg.get("loads") is not None)
     ctx.extra["with_initial_allocation"] = sum(1 for it in items if it.cfg.get("init"))
 
@@ -158,9 +159,12 @@ def search(ctx, disagreements):
     ruleprops.run_items(ctx, pairs(ctx, 10000), predicate, nontrivial, compare=False)
     history.run_profile_history(ctx, 3000, predicate, history_cfg)
     shared_init_stream(ctx, 3000)
+    relabel.run(ctx, 2500, rules_=("phragmen",))
 
 
 def replay(payload):
+    if payload.get("cfg", {}).get("relabel"):
+        return relabel.replay(payload)
     if payload.get("cfg", {}).get("profile_history"):
         return history.replay_profile_history(payload, predicate)
     case = Case.from_json(payload["case"])
